@@ -84,7 +84,7 @@ pub fn run(ctx: &mut Ctx) {
 			ctx,
 			fam,
 			n,
-			|| (gen::arb_value(print_value_cfg()), any::<bool>()),
+			|| (gen::arb_doc_value(print_value_cfg()), any::<bool>()),
 			|(v, route)| match property(v, *route) {
 				Ok(()) => {
 					let (nt, classes) = nontrivial(v);
